@@ -6,7 +6,6 @@ import (
 	"runtime/debug"
 	"strings"
 
-	"github.com/AdguardTeam/urlfilter"
 	"github.com/AdguardTeam/urlfilter/filterlist"
 	"github.com/AdguardTeam/urlfilter/rules"
 
@@ -170,64 +169,47 @@ func RunC13(ch *core.Chooser, env *Env) *Outcome {
 	filterlist.VerifSetHooks(filterlist.VerifHooks{Yield: core.MainHooks()})
 	defer filterlist.VerifSetHooks(filterlist.VerifHooks{})
 
-	// ---- reference, in reverse order of first appearance
+	// ---- reference: every distinct request, in reverse order of first
+	// appearance, each on a brand-new storage and engine - in another
+	// process if the worker provides one
 	fresh := map[string]*freshAnswer{}
-	computeFresh := func(o *workload.Op) string {
-		k := o.Key()
-		if _, ok := fresh[k]; ok {
-			return ""
-		}
-		f := &freshAnswer{}
-		c, err := sub.Clone(false)
-		if err != nil {
-			return "clone: " + err.Error()
-		}
-		defer c.Cleanup()
-		perr := safely(func() {
-			fe := &workload.Engines{Storage: c.Storage}
-			switch o.Kind {
-			case workload.OpDNS:
-				fe.DNS = urlfilter.NewDNSEngine(c.Storage)
-			case workload.OpWeb, workload.OpCosmetic:
-				fe.Eng = urlfilter.NewEngine(c.Storage)
-			default:
-				fe.Net = urlfilter.NewNetworkEngine(c.Storage)
-			}
-			f.canon = workload.Exec(fe, o).Canon()
-			// each derived evaluation is taken on a result object that no
-			// other derived evaluation has touched, so that the reference
-			// cannot inherit (or crash on) a mutation made by a previous one
-			for d := 0; d < workload.NumDerived; d++ {
-				if workload.DerivedApplies(o.Kind, d) {
-					f.derived[d] = workload.Exec(fe, o).Derived(d)
-				}
-			}
-		})
-		if perr != "" {
-			return perr
-		}
-		fresh[k] = f
-		return ""
-	}
 	var needed []workload.Op
-	needed = append(needed, table...)
+	seenKey := map[string]bool{}
+	add := func(o workload.Op) {
+		if k := o.Key(); !seenKey[k] {
+			seenKey[k] = true
+			needed = append(needed, o)
+		}
+	}
+	for _, o := range table {
+		add(o)
+	}
 	for _, st := range steps {
 		if st.kind == stFlood {
 			for i := 24; i < st.floodN; i += 25 {
-				needed = append(needed, floodOp(i, st.floodBase))
+				add(floodOp(i, st.floodBase))
 			}
 			// a few early flood requests are asked again at the end of the
 			// flood (a bounded memo may have evicted or mixed them up)
 			for i := 0; i < 12 && i < st.floodN; i++ {
-				needed = append(needed, floodOp(i, st.floodBase))
+				add(floodOp(i, st.floodBase))
 			}
 		}
 	}
-	for i := len(needed) - 1; i >= 0; i-- {
-		if perr := computeFresh(&needed[i]); perr != "" {
-			out.Invalid, out.InvalidReason = true, perr
-			return out
-		}
+	var answers []RefAnswer
+	var rerr string
+	if env.Ref != nil {
+		answers, rerr = env.Ref(lists, needed)
+		out.Probes["reference_answers_from_another_process"] += len(answers)
+	} else {
+		answers, rerr = FreshAll(sub, needed)
+	}
+	if rerr != "" || len(answers) != len(needed) {
+		out.Invalid, out.InvalidReason = true, "reference: "+rerr
+		return out
+	}
+	for i := range needed {
+		fresh[needed[i].Key()] = &freshAnswer{canon: answers[i].Canon, derived: answers[i].Derived}
 	}
 
 	// ---- execution on the long-lived engines
